@@ -135,6 +135,8 @@ pub struct Sent {
     pub write_failed: bool,
     /// scheduler step at which it was written
     pub step: u64,
+    /// global order among all reads and writes of this transport
+    pub order: u64,
 }
 /// One item handed to the code under test.
 #[derive(Clone, Debug)]
@@ -146,6 +148,7 @@ pub struct Recv {
     pub real_after: Instant,
     pub epoch: u64,
     pub step: u64,
+    pub order: u64,
 }
 
 pub struct State<I> {
@@ -184,6 +187,7 @@ pub struct State<I> {
     pub oplog: Vec<(Op, u8)>,
     pub spin_limit: usize,
     pub check_contract: bool,
+    pub order: u64,
 }
 
 pub struct Mock<S, I> {
@@ -232,6 +236,7 @@ pub fn new_mock<S, I>(
         oplog: vec![],
         spin_limit: 20_000,
         check_contract: true,
+        order: 0,
     }));
     (
         Mock {
@@ -421,7 +426,10 @@ impl<S: Abstract, I> Sink<S> for Mock<S, I> {
         let (v_ms, epoch, epoch_start, step) = (s.vms(), s.epoch, s.epoch_start, s.step);
         let idx = s.sent.len();
         let visible = !fail && s.model == Model::Independent;
+        s.order += 1;
+        let order = s.order;
         s.sent.push(Sent {
+            order,
             item: item.clone(),
             v_ms,
             real: Instant::now(),
@@ -526,7 +534,10 @@ impl<S, I: Abstract> Stream for Mock<S, I> {
         if let Some((m, seq)) = s.inbox.pop_front() {
             let (v_ms, epoch, step) = (s.vms(), s.epoch, s.step);
             let item = m.abs();
+            s.order += 1;
+            let order = s.order;
             s.recv.push(Recv {
+                order,
                 item,
                 seq,
                 v_ms,
